@@ -22,7 +22,7 @@ Kept inside what the statement fixes: no negated keywords in ACCEPT_KEYWORDS / p
 profile package.keywords, no duplicate token inside one line (pkgcore de-duplicates lines with stable_unique),
 ACCEPT_KEYWORDS always contains ARCH and never a testing keyword without its stable form, ACCEPT_LICENSE is always defined somewhere, no USE-conditional LICENSE.
 """
-from hypothesis import strategies as st  # noqa: F401  (strategies come from domaincfg.tape_strategy)
+import shutil
 
 from .. import core
 from ..gen import domaincfg
@@ -336,9 +336,15 @@ def run_case(ctx, case, record=True):
         ctx.case(case, nontrivial=len(kinds - {"two_nodes"}) >= 2 and len(set(exp)) == 2, classes=cl, key=core.jdump(case), n=n)
 
     def body():
+        d = ctx.fresh_dir("vis")
+        try:
+            return evaluate(domaincfg.build(d, _strip_private(spec)))
+        finally:
+            shutil.rmtree(d, ignore_errors=True)  # keep the scratch area small (thousands of cases per task)
+
+    def evaluate(b):
         from pkgcore.restrictions import packages
 
-        b = domaincfg.build(ctx.fresh_dir("vis"), _strip_private(spec))
         dom = b.domain
         vis = {p.cpvstr for p in dom.filter_repo(b.tree).itermatch(packages.AlwaysTrue)}
         got = [p.cpvstr in vis for p in b.pkgs]
@@ -500,8 +506,8 @@ def case_strategy():
 
 def plan(tier, seed):
     if tier == "quick":
-        return [{"task": "vis", "examples": 350} for _ in range(14)]
-    return [{"task": "vis", "examples": 12000} for _ in range(32)]
+        return [{"task": "vis", "examples": 300} for _ in range(14)]
+    return [{"task": "vis", "examples": 8000} for _ in range(32)]
 
 
 def run_task(ctx, task, **kw):
@@ -549,6 +555,10 @@ def _valid(case):
                 return False
         for p in spec["pkgs"]:
             parse_license(p["license"])
+        defined = {l[0] for l in _lines(spec.get("license_groups") or "")}
+        for l in _lines(spec.get("license_groups") or ""):
+            if any(m.startswith("@") and m[1:] not in defined for m in l[1:]):
+                return False
         return True
     except (KeyError, IndexError, TypeError, ValueError, AssertionError):
         return False
